@@ -13,11 +13,12 @@ Inductive ckind :=
 | KForged           (* protected record that does not authenticate *)
 | KUndecHs          (* unprotected handshake record whose fragments do not decode: FragmentBuffer.Push fails *)
 | KUndecContent     (* unprotected record with a fresh number whose content does not decode *)
-| KUndecStale.      (* same, but its record number is behind / inside the replay window: dropped before decoding *)
+| KUndecStale       (* same, but its record number is behind / inside the replay window: dropped before decoding *)
+| KWarnAlert.       (* unprotected alert record, warning level, description other than close_notify, fresh number *)
 
 (* observation: (error surfaced: handshake abort or Read error, alert sent, connection closed, payload delivered) *)
 Definition cobs := (bool * bool * bool * bool)%type.
-Definition c08_case := (bool * ckind * cobs)%type.   (* established?, class, observed *)
+Definition c08_case := (bool * bool * ckind * cobs)%type.   (* negotiating the version?, established?, class, observed *)
 
 Definition st_fresh : rstate := rinit [] false.
 Definition st_est : rstate :=
@@ -36,14 +37,18 @@ Definition dgram_of (k : ckind) : dgram :=
   | KUndecHs => DRecs [RWire (mk0 22 9000 (CHs false false))]
   | KUndecContent => DRecs [RWire (mk0 99 9000 CBad)]
   | KUndecStale => DRecs [RWire (mk0 99 1 CBad)]
+  | KWarnAlert => DRecs [RWire (mk0 21 9000 (CAlert 1 90))]
   end.
 
 (* the epoch-0 window after the handshake: record number 5000 committed, so number 1 is too old *)
 Definition aged (s : rstate) : rstate := mark 64 s (mk0 22 5000 (CHs true false)).
 
-Definition predict (est : bool) (k : ckind) : cobs :=
+Definition predict (neg est : bool) (k : ckind) : cobs :=
   let s := aged (if est then st_est else st_fresh) in
-  let os := snd (recv_dgram 64 false s (dgram_of k)) in
+  let os := match k with
+            | KWarnAlert => snd (recv_conn_neg 64 true false neg est s (mk0 21 9000 (CAlert 1 90)))
+            | _ => snd (recv_dgram 64 false est s (dgram_of k))
+            end in
   (existsb is_err os,
    existsb (fun o => match o with OAlert _ _ => true | _ => false end) os,
    existsb (fun o => match o with OClosed => true | _ => false end) os,
@@ -54,8 +59,8 @@ Definition cobs_eqb (a b : cobs) : bool :=
   Bool.eqb a1 b1 && Bool.eqb a2 b2 && Bool.eqb a3 b3 && Bool.eqb a4 b4.
 
 Definition c08_ok (c : c08_case) : bool :=
-  let '(est, k, observed) := c in cobs_eqb (predict est k) observed.
+  let '(neg, est, k, observed) := c in cobs_eqb (predict neg est k) observed.
 
 (* what the property asks of every drop class *)
 Definition c08_ideal (c : c08_case) : bool :=
-  let '(_, _, observed) := c in cobs_eqb (false, false, false, false) observed.
+  let '(_, _, _, observed) := c in cobs_eqb (false, false, false, false) observed.
